@@ -87,6 +87,37 @@ func multiPending(rec *vr.Rec, reps int, seed int64) {
 			order = append(order, m.MID)
 		}
 		c["shapes"] = shapes
+		// every other case: one more confirmable request is issued with the message ID of a request that is still
+		// pending (caller-assigned, or what a wrapped 16-bit counter produces). Whatever happens to the newcomer, the
+		// pending request keeps its retransmissions and its way to be acknowledged.
+		if rep%2 == 1 && len(order) > 0 {
+			victim := order[rnd.Intn(len(order))]
+			c["colliding_request_with_pending_message_id"] = victim
+			before := s.Len()
+			wg.Add(1)
+			go func() {
+				defer wg.Done()
+				req := cc.AcquireMessage(ctx)
+				defer cc.ReleaseMessage(req)
+				tok, _ := message.GetToken()
+				_ = req.SetupGet("/collide", tok)
+				req.SetType(message.Confirmable)
+				req.SetMessageID(int32(victim))
+				if resp, err := cc.Do(req); err == nil {
+					cc.ReleaseMessage(resp)
+				}
+			}()
+			time.Sleep(2 * time.Millisecond)
+			if s.Len() != before {
+				// the connection put a second message with a pending message ID on the wire: outside what this part judges
+				rec.Count("multi_pending_colliding_request_was_transmitted", 1)
+				cancel()
+				cc.Close()
+				wg.Wait()
+				continue
+			}
+			rec.Count("multi_pending_colliding_requests_refused", 1)
+		}
 		acked := map[uint16]bool{}
 		copies := map[uint16]int{}
 		for k := 1; k <= maxRetr+2; k++ {
